@@ -170,7 +170,7 @@ func runC01() {
 	r.Rule = "one evaluation = one logging program (global-setting deviations x logger derivation x window of field operations placed at a site x finaliser) executed on the real zerolog; every line handed to the writer is checked by an independent strict RFC 8259 parser (one object, valid UTF-8, no raw control byte, exactly one trailing newline); states = distinct output lines; distinct = distinct output lines; non-trivial = the program contains a container, an empty/nil value or a string needing escapes"
 	r.Assumptions = []string{"values from the class alphabet (one representative per emptiness / nil-ness / escaping / width class), not all values", "windows of <= 2 consecutive operations over the full alphabet and <= 3 with a structural middle symbol (quick) / <= 3 full (thorough) at every site; longer chains with <= 1 (quick) / 2 (thorough) deviating symbols", "excluded as the statement allows: invalid RawJSON / json.RawMessage fragments, marshal functions returning invalid JSON, time layouts containing quote, backslash or control characters"}
 	if tier == "quick" {
-		r.Deadline = time.Now().Add(240 * time.Second)
+		r.Deadline = time.Now().Add(420 * time.Second)
 	} else {
 		r.Deadline = time.Now().Add(25 * time.Minute)
 	}
